@@ -93,6 +93,15 @@ func newWorld(sc *Scenario) (*world, error) {
 		if err != nil {
 			return nil, fmt.Errorf("object %v: %w", o["kind"], err)
 		}
+		// Kinds the scheme does not know are registered as Unstructured up front. Otherwise the fake client registers
+		// them lazily with the Go type of the FIRST access - the pod-grouper's first access is a PartialObjectMetadata
+		// Get - and a later write by the harness (workload change) would be decoded into that type and lose the spec.
+		if gvk := u.GroupVersionKind(); !w.scheme.Recognizes(gvk) {
+			w.scheme.AddKnownTypeWithName(gvk, &unstructured.Unstructured{})
+			lk := gvk
+			lk.Kind += "List"
+			w.scheme.AddKnownTypeWithName(lk, &unstructured.UnstructuredList{})
+		}
 		objs = append(objs, u)
 	}
 	w.raw = crfake.NewClientBuilder().WithScheme(w.scheme).WithStatusSubresource(&v2alpha2.PodGroup{}).WithObjects(objs...).Build()
@@ -298,7 +307,8 @@ func (s *State) key() string {
 }
 
 // diffStates lists the fields in which two states differ ("" when equal).
-func diffStates(a, b *State) (fields []string, detail string) {
+func diffStates(a, b *State) (fields []string, details map[string]string) {
+	details = map[string]string{}
 	am, bm := map[string]*PG{}, map[string]*PG{}
 	for i := range a.PodGroups {
 		am[a.PodGroups[i].Name] = &a.PodGroups[i]
@@ -308,9 +318,7 @@ func diffStates(a, b *State) (fields []string, detail string) {
 	}
 	add := func(f, d string) {
 		fields = append(fields, f)
-		if detail == "" {
-			detail = d
-		}
+		details[f] = d
 	}
 	var names []string
 	for n := range am {
@@ -373,5 +381,5 @@ func diffStates(a, b *State) (fields []string, detail string) {
 			}
 		}
 	}
-	return fields, detail
+	return fields, details
 }
